@@ -526,8 +526,9 @@ class Executor(ExprMixin, StmtMixin, Engine):
             elif name == 'ord':
                 yield s1, mk_int(z3.StrToCode(pos[0].e))
             elif name == 'set':
-                r = self.call_ufunc_auto('charset_of', [pos[0]], STR)
-                yield s1, mk_obj('symset', r)
+                if not isinstance(pos[0].t, TStr):
+                    raise OutOfSubset('set() of %s' % pos[0].t, node)
+                yield s1, mk_obj('symset', pos[0])     # the set of characters of a string (kept symbolic)
             elif name == 'list':
                 yield s1, pos[0]
             elif name == 'bool':
